@@ -212,7 +212,7 @@ class Mesh:
         edge_candidates = np.unique(self.t2e[:, self.f2t[0, facets]])
         A = self.edges[:, edge_candidates].T
         B = boundary_edges
-        dims = A.max(0) + 1
+        dims = (self.nvertices, self.nvertices)
         ix = np.where(np.isin(
             np.ravel_multi_index(A.T, dims),  # type: ignore
             np.ravel_multi_index(B.T, dims),  # type: ignore
